@@ -151,12 +151,24 @@ def check_pem(case):
 
     f = Fails()
     d = case["d"]
+    mode = case["mode"]
     pt = ec.pub(d)
     cls = []
+    if case.get("end"):
+        # the DER of both PEM forms ends with the public key: walk to the next key whose encoded public key ends in an
+        # ASCII whitespace byte or NUL (about 1 key in 37), a byte that text-oriented clean-up code likes to strip
+        for _ in range(2000):
+            last = ec.sec1_encode(pt, mode == "pub-c")[-1]
+            if last in (0x09, 0x0A, 0x0B, 0x0C, 0x0D, 0x20, 0x00):
+                break
+            d = d % (N - 1) + 1
+            pt = ec.pub(d)
+        else:
+            return ["search-exhausted"], f
+        cls.append("nt:pem-der-ends-in-whitespace-or-nul")
     key = d.to_bytes(32, "big")
     if key[0] == 0:
         cls.append("nt:key-leading-zeros")
-    mode = case["mode"]
     cls.append("nt:pem-" + mode)
     if mode == "priv":
         pem = attempt(bits.pem_encode_key, key)
@@ -307,7 +319,8 @@ def wif_cases(draw):
 
 @st.composite
 def pem_cases(draw):
-    return {"d": draw(st.one_of(gen.scalars_valid(), st.integers(1, 255))), "mode": draw(st.sampled_from(["priv", "pub-c", "pub-u", "openssl-priv", "openssl-pub"]))}
+    return {"d": draw(st.one_of(gen.scalars_valid(), st.integers(1, 255))), "mode": draw(st.sampled_from(["priv", "pub-c", "pub-u", "openssl-priv", "openssl-pub"])),
+            "end": draw(st.sampled_from([False, False, True]))}
 
 
 def enum_pem_corpus(tier):
@@ -324,7 +337,7 @@ def _targets(tier):
         Target("wif", check_wif, strategy=lambda tier: wif_cases(), budget={"quick": 3000, "thorough": 60000},
                required=["nt:key-31-leading-zero-bytes", "nt:suffix", "nt:wif-unknown-version", "nt:wif-mutated", "nt:bad-key-len", "nt:bad-key-range"]),
         Target("pem", check_pem, strategy=lambda tier: pem_cases(), budget={"quick": 320, "thorough": 6000},
-               required=["nt:pem-priv", "nt:pem-openssl-priv", "nt:pem-openssl-pub", "nt:key-leading-zeros"] if HAVE_OPENSSL else ["nt:pem-priv"]),
+               required=["nt:pem-priv", "nt:pem-openssl-priv", "nt:pem-openssl-pub", "nt:key-leading-zeros", "nt:pem-der-ends-in-whitespace-or-nul"] if HAVE_OPENSSL else ["nt:pem-priv", "nt:pem-der-ends-in-whitespace-or-nul"]),
         Target("pem-fixed", check_pem, enumerate_=enum_pem_corpus, shards=4),
     ]
 
